@@ -880,6 +880,10 @@ class ServiceDiscover:
         self, entry: someip.header.SOMEIPSDEntry, addr: _T_SOCKADDR
     ) -> None:
         if not self.is_watching_service(entry):
+            # nobody is interested (any more). Also forget what was learnt about this
+            # service while it was watched: this StopOffer or (shorter) TTL would
+            # otherwise be lost and a stale record reported to the next watcher
+            self.service_offer_stopped(addr, entry)
             return
         if entry.ttl == 0:
             self.service_offer_stopped(addr, entry)
